@@ -110,12 +110,25 @@ def rule_ops(ctx):
 
 
 def _bound_assigns(f):
-    """(target key name, func name min/max/None, node) for bound computations."""
+    """(bound key r1/r2/n1/n2, 'min'/'max', node) for bound computations.
+
+    A bound is recognised by the dict key it is stored under - directly
+    (`rng['r1'] = min(...)`) or through a local that the returned/assigned dict
+    literal maps to that key (`{'n1': lo, 'r1': str(top)}`)."""
+    keys = ('r1', 'r2', 'n1', 'n2')
+    var2key = {k: k for k in keys}
+    for n in own_nodes(f):
+        if isinstance(n, ast.Dict):
+            for k, v in zip(n.keys, n.values):
+                if isinstance(k, ast.Constant) and k.value in keys:
+                    names = [x.id for x in ast.walk(v) if isinstance(x, ast.Name)
+                             and x.id not in ('str', 'int')]
+                    if len(names) == 1:
+                        var2key.setdefault(names[0], k.value)
     out = []
     for n in own_nodes(f):
         if not isinstance(n, ast.Assign):
             continue
-        pairs = []
         t = n.targets[0]
         if isinstance(t, ast.Tuple) and isinstance(n.value, ast.Tuple):
             pairs = list(zip(t.elts, n.value.elts))
@@ -124,13 +137,12 @@ def _bound_assigns(f):
         for tt, vv in pairs:
             name = None
             if isinstance(tt, ast.Name):
-                name = tt.id
+                name = var2key.get(tt.id)
             elif isinstance(tt, ast.Subscript) and isinstance(
-                    tt.slice, ast.Constant):
+                    tt.slice, ast.Constant) and tt.slice.value in keys:
                 name = tt.slice.value
-            if name in ('r1', 'r2', 'n1', 'n2') and isinstance(vv, ast.Call) \
-                    and isinstance(vv.func, ast.Name) and vv.func.id in (
-                    'min', 'max'):
+            if name and isinstance(vv, ast.Call) and isinstance(
+                    vv.func, ast.Name) and vv.func.id in ('min', 'max'):
                 out.append((name, vv.func.id, n))
     return out
 
@@ -277,8 +289,10 @@ def rule_inclusive(ctx):
     rr.instances += 1
     it = None
     for n in own_nodes(sp):
-        if isinstance(n, ast.Assign) and isinstance(n.targets[0], ast.Name) and \
-                n.targets[0].id == 'it' and isinstance(n.value, ast.Tuple):
+        if isinstance(n, ast.Assign) and isinstance(n.value, ast.Tuple) and \
+                len(n.value.elts) == 4 and all(
+                isinstance(e, ast.Tuple) and len(e.elts) == 3
+                for e in n.value.elts):
             it = n.value
     ok = False
     if it is not None:
@@ -289,8 +303,17 @@ def rule_inclusive(ctx):
                                          ('r1', 'r2', 1), ('r2', 'r1', -1)])
         except Exception:
             ok = False
-    t = ' '.join(norm_src(n) for n in own_nodes(sp) if isinstance(n, ast.Assign))
-    if ok and 'z[i] - n' in t and 'int(z[i]) - n' in t:
+    # the cut: <overlap>[side] - step  (for rows through int())
+    subs = [n for n in own_nodes(sp) if isinstance(n, ast.BinOp) and isinstance(
+        n.op, ast.Sub) and isinstance(n.right, ast.Name) and isinstance(
+        n.left, (ast.Subscript, ast.Call))]
+    loopvars = set()
+    for n in own_nodes(sp):
+        if isinstance(n, ast.For) and isinstance(n.target, ast.Tuple) and \
+                len(n.target.elts) == 3:
+            loopvars = {e.id for e in n.target.elts if isinstance(e, ast.Name)}
+    steps = [n for n in subs if n.right.id in loopvars]
+    if ok and len(steps) >= 2:
         rr.ok('_split cuts the remainder at (overlap bound -/+ 1) on each of '
               'the four sides', RANGES)
     else:
